@@ -133,11 +133,17 @@ class Schema:
         self.classes = {}
         self.keys = {}
         self.rec_keys = {}
+        self.ext_methods = {}
         ns = {'INT': INT, 'BOOL': BOOL, 'REAL': REAL, 'NONE': NONE, 'STR': STR, 'FUNC': FUNC, 'OCTETS': OCTETS,
               'TRef': TRef, 'TList': TList, 'TTable': TTable, 'TOpt': TOpt, 'TUnion': TUnion, 'TFunc': TFunc,
               'TEnum': TEnum, 'TQueue': TQueue, 'ANY': T_ANY, 'TTuple': TTuple,
-              'cls': self._cls, 'rec': self._rec, 'key': self._key}
+              'cls': self._cls, 'rec': self._rec, 'key': self._key, 'ext': self._ext, 'TTuple': TTuple}
         exec(compile(open(path).read(), path, 'exec'), ns)
+
+    def _ext(self, name, **methods):
+        """methods of an external class (not in the repository): name -> result type; calls yield arbitrary values"""
+        for m, t in methods.items():
+            self.ext_methods[(name, m)] = t
 
     def _cls(self, name, **fields):
         self.classes.setdefault(name, {}).update(fields)
